@@ -152,7 +152,7 @@ def check_c01(ctx):
                        "by TLC against Layer P (Window, Periodic, ReplyOK, Deterministic). distinct = distinct op "
                        "sequences containing at least one pick.")
     mcd = {"N": 3, "WLO": 0, "WHI": 3, "PICKS": 14, "UPDATES": 1, "SCALE": 1} if q else \
-          {"N": 4, "WLO": 0, "WHI": 4, "PICKS": 26, "UPDATES": 1, "SCALE": 1}
+          {"N": 3, "WLO": 0, "WHI": 4, "PICKS": 26, "UPDATES": 1, "SCALE": 1}
     ctx.cov["constants"]["MC_C01"] = mcd
     ctx.tlc_must_pass("Balancer", "Slb", "MC_C01.cfg", defines=mcd, timeout=1500, coverage=not q)
     cases = []
